@@ -136,6 +136,12 @@ func expectAccept(m MemoMut) string {
 	if m.Malformed {
 		return "no"
 	}
+	if strings.HasPrefix(m.Kind, "attrs=") {
+		if strings.Contains(m.Site, "pre_actions") {
+			return "yes" // well-formed fee attributes in action position
+		}
+		return "either" // a registered forwarding type under some protocol id: accepted by the parser
+	}
 	site := stripIdxAll(m.Site)
 	isProto := site == "orbiter.forwarding.protocol_id"
 	isAction := site == "orbiter.pre_actions[].id"
@@ -308,6 +314,44 @@ func CheckC15(e *fw.Env, l *Lab) {
 			if idx%1499 == 0 {
 				e.Res.Sample(map[string]any{"mutation": m.Kind, "site": m.Site, "expect_accept": exp, "accepted": a.OK, "error": trunc(a.Err, 200)})
 			}
+		}
+	}
+
+	// 2b. payloads with two defects: WHICH refusal is reported must not vary between parses.
+	var multi []string
+	for _, mm := range MultiDefectMemos(l) {
+		multi = append(multi, mm)
+	}
+	for _, tpl := range l.Templates() {
+		for _, m := range DoubleMutations(tpl, e.R.Intn, e.N(2000, 60000)/len(l.Templates())) {
+			multi = append(multi, m.Memo)
+		}
+	}
+	for i, memo := range multi {
+		e.Res.Eval()
+		e.Log(map[string]any{"multi_defect_memo": memo})
+		first := parseMemo(p1, w, memo)
+		if strings.HasPrefix(first.Err, "PANIC") {
+			e.Res.Violate(fw.Violation{Property: "C14", Kind: "panic", Tags: map[string]string{"site": "parser"}, Detail: first.Err, Witness: trunc(memo, 1500)})
+			continue
+		}
+		pure := true
+		for k := 0; k < 24; k++ {
+			p := p1
+			if k%2 == 1 {
+				p = p2
+			}
+			again := parseMemo(p, w, memo)
+			if !first.same(again) {
+				e.Res.Violate(fw.Violation{Property: "C15", Kind: "parsing-not-pure", Tags: map[string]string{"input": "multi-defect"},
+					Detail:  fmt.Sprintf("the same memo gave %v/%s/%s and then %v/%s/%s", first.OK, first.Code, trunc(first.Err, 150), again.OK, again.Code, trunc(again.Err, 150)),
+					Witness: trunc(memo, 1500)})
+				pure = false
+				break
+			}
+		}
+		if pure && i%7 == 0 {
+			e.Res.Sig("multi-defect|accepted=%v|%s", first.OK, first.Code)
 		}
 	}
 
